@@ -183,11 +183,15 @@ def handleSched (d : DSt) (n : Nat) (kind : String) (c : Nat) (args obs : List S
   match kind, args, obs with
   | "ob", opk :: _, _ =>
     if opk == "setnext" then return { d with ops := d.ops + 1 }
-    return { setM d c (fun cs => { cs with op := some opk, wroteActive := false, wrotePaused := false }) with ops := d.ops + 1 }
+    let d := { setM d c (fun cs => { cs with op := some opk, wroteActive := false, wrotePaused := false }) with ops := d.ops + 1 }
+    -- an operation that changes active/paused is under way: the specification suspends its claims about `c`
+    if opk == "notify" then return d else spec d n c [.opBegin c]
   | "oe", opk :: _, _ =>
     if opk == "setnext" then return d
     -- every handler call of the operation has returned (with or without a logged section)
-    return setM d c fun cs => let cs := applyWrites cs; { cs with m := { cs.m with synced := true }, op := none }
+    let d := setM d c fun cs => let cs := applyWrites cs; { cs with m := { cs.m with synced := true }, op := none }
+    -- … and from now on `c` is / is not this node's to schedule, as the harness's own operations imply
+    if opk == "notify" then return d else spec d n c [.authority c (d.cs.getD c {}).m.schedulable]
   | "force", _, _ =>
     let d := { d with forces := d.forces + 1 }
     if cst.guardsN < cst.ambUntil then
